@@ -127,7 +127,14 @@ def run_session(exe, lines, timeout=120, env=None, mem_mb=4096):
     cases are run in a new process."""
     obs = {}
     pending = list(lines)
+    timeouts = 0
     while pending:
+        if timeouts >= 2:
+            # the process keeps hanging: two hung cases are evidence enough, do not spend the
+            # time limit again on each of the remaining ones
+            for l in pending:
+                obs[l.split(' ', 1)[0]] = '(not-run)'     # judged as a harness note, never as evidence
+            break
         inp = '\n'.join(pending) + '\n'
         e = dict(os.environ if env is None else env)
         e.setdefault('GOMEMLIMIT', '%dMiB' % mem_mb)
@@ -141,6 +148,7 @@ def run_session(exe, lines, timeout=120, env=None, mem_mb=4096):
         except subprocess.TimeoutExpired as te:
             out = te.stdout.decode() if isinstance(te.stdout, bytes) else (te.stdout or '')
             err, how = '', 'timeout'
+            timeouts += 1
         started = None
         done = set()
         for ln in out.split('\n'):
@@ -164,7 +172,7 @@ def run_session(exe, lines, timeout=120, env=None, mem_mb=4096):
     return obs
 
 
-def run_cases(exe, cases, shards=None, timeout=300, env=None):
+def run_cases(exe, cases, shards=None, timeout=120, env=None):
     """cases: list of (id, sexp).  Independent cases are sharded over processes."""
     if not cases:
         return {}
